@@ -1,7 +1,8 @@
 (* C11 — Cell expressions denote the Boolean function MCNP assigns to them.
    Only restatements; proofs are in C11/Proofs.v. Spec vocabulary: C11/Spec.v. *)
 From Coq Require Import List NArith ZArith Bool String Ascii Lia.
-From T4V Require Import Base.Str C11.Model C11.Spec C11.Proofs C11.LexProofs C11.LexSound C11.Layout C11.Pipeline C11.Sound C11.Complete C11.Loop C11.Card C11.Handover C11.EndToEnd.
+From T4V Require Import Base.Str C11.Model C11.Spec C11.Proofs C11.LexProofs C11.LexSound C11.Layout C11.Pipeline C11.Sound C11.Complete C11.Loop C11.Card C11.Handover C11.EndToEnd C11.Regex.
+From T4V Require C11.Exec C11.RegexProofs.
 Import ListNotations.
 Close Scope string_scope.
 Open Scope list_scope.
@@ -282,6 +283,41 @@ Proof.
   - vm_compute. reflexivity.
   - vm_compute. reflexivity.
 Qed.
+
+(* ---- the open finding, exactly ----
+   every written MCNP expression is in exactly one of two cases: no #n below a
+   #( ) and accepted with MCNP's meaning, or one such #n and AttributeError.
+   The class nested_complement_of_cellref is therefore precisely the complement
+   of the accepted set within the well-formed expressions; MCNP's meaning of a
+   rejected expression is [mden cd sg e] as for every expression *)
+Theorem C11_written_dichotomy : forall (e : mexpr) (ws : written) (trail : nat),
+  wf_written ws = true -> tokens_written ws = toks 0 e ->
+  (no_cell_under_not e = true /\
+   exists a, get_ast (render ws trail) = Ok a /\
+             (nonzero e = true -> forall cd sg, aden cd sg a = mden cd sg e)) \/
+  (no_cell_under_not e = false /\ get_ast (render ws trail) = Err EAttribute).
+Proof. exact written_dichotomy. Qed.
+Print Assumptions C11_written_dichotomy.
+
+Theorem C11_rejected_iff_nested : forall (e : mexpr) (ws : written) (trail : nat),
+  wf_written ws = true -> tokens_written ws = toks 0 e ->
+  ((exists x, get_ast (render ws trail) = Err x) <-> no_cell_under_not e = false).
+Proof. exact rejected_iff_nested. Qed.
+Print Assumptions C11_rejected_iff_nested.
+
+(* ---- the code-shaped model ----
+   Regex.v models normalize() as the composition of its eight re.sub calls
+   (one explicit rewriting function each, tied one by one to the regexes on all
+   short strings incl. the private characters) followed by the
+   character-level PEG of geom.ebnf with GeomSemantics; that model and the lexer
+   + automaton model used by all theorems above are the same function on every
+   string of length <= 5 over "123-#(): ." (111 111 strings, by computation;
+   the thorough tier extends the computation to length 6 and to length 7 over
+   nine characters) *)
+Theorem C11_get_ast2_eq_bounded : forall s : String.string, (String.length s <= 5)%nat ->
+  (forall c, In c (String.list_ascii_of_string s) -> In c Exec.alpha3) -> get_ast2 s = get_ast s.
+Proof. exact RegexProofs.get_ast2_eq_short. Qed.
+Print Assumptions C11_get_ast2_eq_bounded.
 
 (* [admissible] excludes exactly one class of well-formed MCNP expressions
    that the code rejects (genuine defect, known finding): *)
